@@ -239,15 +239,31 @@ def hexOfBytes (bs : List Nat) : String :=
   String.ofList (bs.flatMap fun b => [hexDigit (b / 16 % 16), hexDigit (b % 16)])
 
 
+/-- full expansion the way Python computes it (`simplify()` at every notation node, then the children): on
+patterns with redundant substitutions under a notation node with an EMPTY map it keeps the substitution node,
+where `NPat.expand` (which goes through `Py.inst`) drops it; the two agree on shaped patterns
+(`NotationThm`).  Used only for printing states in the correspondence protocol. -/
+partial def pyExpand (n : Nat) : NPat → NPat
+  | .inst p m => match NPat.instF n m p with
+      | some s => pyExpand n s
+      | none => .inst p m
+  | .imp l r => .imp (pyExpand n l) (pyExpand n r)
+  | .app l r => .app (pyExpand n l) (pyExpand n r)
+  | .ex x q => .ex x (pyExpand n q)
+  | .mu x q => .mu x (pyExpand n q)
+  | .esub q x r => .esub (pyExpand n q) x (pyExpand n r)
+  | .ssub q x r => .ssub (pyExpand n q) x (pyExpand n r)
+  | q => q
+
 def ttermToStrX : TTerm → String
-  | .pat p => s!"(pattern {patToStr p.expand})"
-  | .proved p => s!"(proved {patToStr p.expand})"
+  | .pat p => s!"(pattern {patToStr (pyExpand 4000 p).expand})"
+  | .proved p => s!"(proved {patToStr (pyExpand 4000 p).expand})"
 
 /-- state with every term fully expanded -/
 def pystToStrX (s : PySt) : String :=
   "(pystate " ++ phaseToStr s.phase ++ " (stack " ++ " ".intercalate (s.stack.reverse.map fun (t, _) => ttermToStrX t) ++
     ") (memory " ++ " ".intercalate (s.memory.map ttermToStrX) ++ ") (claims " ++
-    " ".intercalate (s.claims.map fun c => patToStr c.expand) ++ "))"
+    " ".intercalate (s.claims.map fun c => patToStr (pyExpand 4000 c).expand) ++ "))"
 
 
 open Sexp in
